@@ -79,28 +79,48 @@ def run(pid, tier):
     samples = []
     if pid in ("C01", "C02"):
         runs.append(("handler", 1 if quick else 3, "full", "ready"))
-    for side, n, contents, phase in runs:
-        ex = chan.extract_handler(n) if side == "handler" else chan.extract(binpath, n, contents, side, phase)
+    runs = [x + (0,) for x in runs]
+    if pid == "C03":
+        # deep indices: the compact secret store places / checks secrets by the trailing bits of the
+        # commitment number; these runs start after `base` honest cycles so that the explored numbers
+        # straddle 2^k - 1 (base = 2^k - 3: the first number whose index has k trailing zero bits is base+2)
+        for base in ([13, 253] if quick else [5, 13, 29, 61, 125, 253, 509, 1021]):
+            runs.append(("deepcp", 4, "full", "ready", base))
+    for side, n, contents, phase, base in runs:
+        ex = chan.extract_handler(n) if side == "handler" else chan.extract(
+            binpath, n, contents, side, phase, base=base, threads=4 if base else 16)
         r = chan.impl_tlc(ex, pid, [inv], workers=8 if quick else 14)
         rep = r["report"]
         st = _edge_stats(ex)
-        cov["legs"]["B_impl_%s_%s_N%d" % (side, phase, n)] = {
+        if base and not any(q["op"] == "ValidateRevocation" and q["n"] == base + 2 and e[2] == 1
+                            for q, e in _accepted(ex)):
+            raise vlib.ToolError("deep run base=%d never accepted the revocation of number %d" % (base, base + 2))
+        cov["legs"]["B_impl_%s_%s_N%d%s" % (side, phase, n, ("_base%d" % base) if base else "")] = {
             "impl_states": rep["nodes"], "impl_states_expanded": rep["expanded"], "impl_edges": rep["edges"],
             "requests_in_alphabet": len(ex["requests"]), "product_states": r["distinct"],
             "product_transitions": r["states"], "spec_divergences": len(rep["divergences"]),
             "violated": r["violated"], "wall_s": round(r["wall_s"] + ex["wall_s"], 1), **st}
         tot_states += r["distinct"]
         tot_edges += rep["edges"]
-        divergences += [{"run": "%s/%s/N%d" % (side, phase, n), **d} for d in rep["divergences"][:20]]
+        divergences += [{"run": "%s/%s/N%d/base%d" % (side, phase, n, base), **d} for d in rep["divergences"][:20]]
         if not samples:
             samples = _sample_edges(ex)
         if r["violated"]:
             seq = chan.trace_requests(r["trace"])
             key = chan.seq_key(r["violated"][0], seq)
-            violations.append({"key": key, "what": "%s fails on the real implementation after: %s" % (
-                r["violated"][0], " ; ".join(json.dumps(s["req"], sort_keys=True) for s in seq)),
-                "replay": {"kind": "chan-seq", "n": n, "phase": phase, "mon": pid, "inv": inv,
-                           "requests": [s["req"] for s in seq]}})
+            if base:
+                key += "@deep"
+            # a deep run is replayed from the very beginning: honest prefix, then the violating requests
+            prefix = []
+            for k in range(base + 1 if base else 0):
+                prefix.append({"op": "SignCp", "n": k, "t": "A", "c": "A"})
+                if k >= 1 and k + 1 <= base:
+                    prefix.append({"op": "ValidateRevocation", "n": k - 1, "t": "A", "m": k - 1})
+            violations.append({"key": key, "what": "%s fails on the real implementation after%s: %s" % (
+                r["violated"][0], (" %d honest commitment cycles and" % base) if base else "",
+                " ; ".join(json.dumps(s["req"], sort_keys=True) for s in seq)),
+                "replay": {"kind": "chan-seq", "n": n + base + 2 if base else n, "phase": phase, "mon": pid, "inv": inv,
+                           "requests": prefix + [s["req"] for s in seq]}})
 
     # ---- leg C: model behaviours replayed through the implementation, validated by TLC
     nsim, depth, nn = (40, 40, 6) if quick else (400, 60, 10)
@@ -155,6 +175,16 @@ def run(pid, tier):
                          "TLC and the Json/IOUtils community modules"],
                         time.time() - t0, unknown + known)
     return code
+
+
+def _accepted(ex):
+    """(request, edge) for every accepted edge of an extracted implementation graph"""
+    with open(ex["nodes"]) as f:
+        for line in f:
+            row = json.loads(line)
+            for e in row["e"]:
+                if e[2] == 1:
+                    yield ex["requests"][e[1] - 1], e
 
 
 def replay(pid, obj):
